@@ -332,17 +332,50 @@ def run_lines(exe, lines, tag):
 def hier_phase(exe, rng, tier, seed):
     lines, meta = [], []
     for _ in range(300 if tier == "quick" else 4000):
-        n = rng.choice([4, 6, 8, 10])
-        names = [f"B{i}" for i in range(n)]
-        parents = {}
-        for i, nm in enumerate(names):
-            k = 0 if i == 0 else rng.choice([1, 1, 2, 2, 3])
-            ps = rng.sample(names[:i], min(i, k))
-            if i == n - 1 and i >= 2 and len(ps) < 2:
-                ps = rng.sample(names[:i], 2)          # the argument's bundle usually has several parents
+        if rng.random() < 0.5:
+            # two parent chains of UNEQUAL length that join at a shared ancestor, below a tail of further ancestors; a side branch of
+            # its own length hangs off the long chain; the argument lists its two parents in either order
+            names, parents = [], {}
+
+            def add(nm, ps):
+                names.append(nm)
+                parents[nm] = list(ps)
+                return nm
+            prev = add("T0", [])
+            for j in range(1, rng.choice([1, 2, 3])):
+                prev = add(f"T{j}", [prev])
+            shared = add("S", [prev]) if rng.random() < 0.7 else prev
+            prev = shared
+            for j in range(rng.choice([0, 1, 2])):
+                prev = add(f"X{j}", [prev])
+            short_top = prev
+            side = add("Q0", [])
+            for j in range(1, rng.choice([1, 2, 3])):
+                side = add(f"Q{j}", [side])
+            prev = shared
+            for j in range(rng.choice([2, 3, 4])):
+                ps = [prev] + ([side] if j == 0 else [])
+                rng.shuffle(ps)
+                prev = add(f"Y{j}", ps)
+            long_top = prev
+            ps = [short_top, long_top]
             rng.shuffle(ps)
-            parents[nm] = ps
-        arg = names[-1] if rng.random() < 0.8 else rng.choice(names)
+            add("ARG", ps)
+            arg = "ARG"
+        else:
+            n = rng.choice([4, 6, 8, 10, 14])
+            names = [f"B{i}" for i in range(n)]
+            parents = {}
+            deep = rng.random() < 0.6            # parents mostly among the most recent bundles: long chains
+            for i, nm in enumerate(names):
+                k = 0 if i == 0 else rng.choice([1, 1, 2, 2, 3])
+                pool_ = names[max(0, i - 3):i] if deep and rng.random() < 0.8 else names[:i]
+                ps = rng.sample(pool_, min(len(pool_), k))
+                if i == n - 1 and i >= 2 and len(ps) < 2:
+                    ps = rng.sample(names[:i], 2)          # the argument's bundle usually has several parents
+                rng.shuffle(ps)
+                parents[nm] = ps
+            arg = names[-1] if rng.random() < 0.8 else rng.choice(names)
         dist, frontier = {arg: 0}, [arg]
         while frontier:                                 # breadth-first: fewest parent edges
             nxt = []
